@@ -54,6 +54,10 @@ func (v *Verifier) evalCall(fr *Frame, st *State, x *ast.CallExpr) Val {
 				panic(unsupportedf(x.Pos(), "ite over incompatible values"))
 			}
 			return r
+		case "disjoint": // disjoint(s, t): the two slices share no element
+			a := v.evalSpec(fr, st, x.Args[0]).(SliceVal)
+			b := v.evalSpec(fr, st, x.Args[1]).(SliceVal)
+			return Scalar{c.Or(c.Not(c.Eq(a.Ref, b.Ref)), v.iLe(v.iAdd(a.Off, a.Len), b.Off), v.iLe(v.iAdd(b.Off, b.Len), a.Off)), types.Typ[types.Bool]}
 		case "bits": // bits(x, hi, lo): extract
 			s := v.asScalar(v.evalSpec(fr, st, x.Args[0]), x.Pos())
 			hi := v.constInt(fr, st, x.Args[1])
@@ -176,46 +180,81 @@ func (v *Verifier) evalSpec(fr *Frame, st *State, e ast.Expr) Val {
 func (v *Verifier) evalQuant(fr *Frame, st *State, x *ast.CallExpr, forall bool) Val {
 	c := v.eng.C
 	n := len(x.Args) - 1
+	type qv struct {
+		name string
+		sh   *Shape
+	}
+	var vars []qv
+	for i := 0; i < n; i += 2 {
+		t := v.resolveType(fr, x.Args[i+1])
+		vars = append(vars, qv{x.Args[i].(*ast.Ident).Name, v.eng.shapeOf(t)})
+	}
 	saved := map[string]Val{}
 	had := map[string]bool{}
+	for _, q := range vars {
+		if o, ok := fr.ghost[q.name]; ok {
+			saved[q.name] = o
+			had[q.name] = true
+		}
+	}
+	restore := func() {
+		for _, q := range vars {
+			if had[q.name] {
+				fr.ghost[q.name] = saved[q.name]
+			} else {
+				delete(fr.ghost, q.name)
+			}
+		}
+	}
+	defer restore()
+	// Bool variables are expanded by cases (no SMT quantifier); the rest become bound variables.
+	var boolVars []qv
 	var bvs []*Term
 	var ranges []*Term
-	for i := 0; i < n; i += 2 {
-		name := x.Args[i].(*ast.Ident).Name
-		t := v.resolveType(fr, x.Args[i+1])
-		sh := v.eng.shapeOf(t)
-		ds := v.eng.leafDescs(sh)
+	for _, q := range vars {
+		if q.sh.Kind == ShScalar && q.sh.Sort == BoolSort {
+			boolVars = append(boolVars, q)
+			continue
+		}
+		ds := v.eng.leafDescs(q.sh)
 		ts := make([]*Term, len(ds))
 		for k, d := range ds {
-			ts[k] = c.Bound(name+d.Path, d.Sort)
+			ts[k] = c.Bound(q.name+d.Path, d.Sort)
 			bvs = append(bvs, ts[k])
 		}
-		val := v.eng.valFromLeaves(sh, ts)
+		val := v.eng.valFromLeaves(q.sh, ts)
 		var wf []*Term
 		v.eng.wellFormed(val, &wf, false)
 		ranges = append(ranges, wf...)
-		if o, ok := fr.ghost[name]; ok {
-			saved[name] = o
-			had[name] = true
-		}
-		fr.ghost[name] = val
+		fr.ghost[q.name] = val
 	}
-	body := v.asBool(v.evalSpec(fr, st, x.Args[n]), x.Pos())
-	for i := 0; i < n; i += 2 {
-		name := x.Args[i].(*ast.Ident).Name
-		if had[name] {
-			fr.ghost[name] = saved[name]
-		} else {
-			delete(fr.ghost, name)
+	if len(boolVars) > 6 {
+		panic(unsupportedf(x.Pos(), "too many Bool-quantified variables"))
+	}
+	var parts []*Term
+	for k := 0; k < 1<<len(boolVars); k++ {
+		for i, q := range boolVars {
+			fr.ghost[q.name] = Scalar{c.Bool((k>>i)&1 == 1), types.Typ[types.Bool]}
 		}
+		parts = append(parts, v.asBool(v.evalSpec(fr, st, x.Args[n]), x.Pos()))
 	}
 	if forall {
+		body := c.And(parts...)
 		return Scalar{c.Forall(bvs, c.Implies(c.And(ranges...), body)), types.Typ[types.Bool]}
 	}
+	body := c.Or(parts...)
 	return Scalar{c.Exists(bvs, c.And(append(ranges, body)...)), types.Typ[types.Bool]}
 }
 
 func (v *Verifier) ghostApp(fr *Frame, st *State, f GhostFn, x *ast.CallExpr) Val {
+	if strings.HasSuffix(f.Name, ".ufAESCipher") {
+		// the block cipher of a key: the same symbol as the model of aes.NewCipher
+		c := v.eng.C
+		key := v.eval(fr, st, x.Args[0]).(SliceVal)
+		rows := v.eng.heapRows(st, v.eng.shapeOf(types.Typ[types.Uint8]), key.Ref)
+		id := c.App("ufAESKey", IntSort, rows[0], key.Off, key.Len)
+		return OpaqueVal{Sh: v.eng.shapeOf(f.Sig.Results().At(0).Type()), ID: id, Nil: c.False()}
+	}
 	if strings.HasSuffix(f.Name, ".ufAESLabel") {
 		// the AES block function on labels: the same symbol as the model of cipher.Block.Encrypt
 		c := v.eng.C
@@ -421,7 +460,7 @@ func (v *Verifier) appendElems(fr *Frame, st *State, sv SliceVal, elems []Val) V
 	v.eng.heapSetRows(st, sv.Sh.Elem, newRef, rows)
 	newCap := c.Fresh("appcap", v.eng.IdxSort())
 	st.assume(v.iLe(newLen, newCap))
-	if !v.eng.MathInts {
+	if !v.eng.IntIdx() {
 		st.assume(c.BVUle(newCap, c.BVu(1<<maxLenBits, 64)))
 	}
 	return SliceVal{Sh: sv.Sh, Ref: newRef, Off: sv.Off, Len: newLen, Cap: c.Ite(fits, sv.Cap, newCap)}
@@ -445,7 +484,7 @@ func (v *Verifier) appendSlice(fr *Frame, st *State, sv SliceVal, other Val, pos
 	v.copyRows(st, dst, ov.Len, srcRows, ov.Off)
 	newCap := c.Fresh("appcap", v.eng.IdxSort())
 	st.assume(v.iLe(newLen, newCap))
-	if !v.eng.MathInts {
+	if !v.eng.IntIdx() {
 		st.assume(c.BVUle(newCap, c.BVu(1<<maxLenBits, 64)))
 	}
 	return SliceVal{Sh: sv.Sh, Ref: newRef, Off: sv.Off, Len: newLen, Cap: c.Ite(fits, sv.Cap, newCap)}
@@ -483,7 +522,7 @@ func (v *Verifier) copyRows(st *State, d SliceVal, n *Term, srcRows []*Term, sOf
 		j := c.Bound("j", v.eng.IdxSort())
 		rel := v.iSub(j, d.Off)
 		in := c.And(v.iLe(d.Off, j), v.iLt(rel, n))
-		if !v.eng.MathInts {
+		if !v.eng.IntIdx() {
 			in = c.BVUlt(rel, n)
 		}
 		body := c.Eq(c.Select(nr, j), c.Ite(in, c.Select(srcRows[r], v.iAdd(sOff, rel)), c.Select(old[r], j)))
@@ -504,7 +543,7 @@ func (v *Verifier) fillSlice(st *State, d SliceVal, val Val) {
 		j := c.Bound("j", v.eng.IdxSort())
 		rel := v.iSub(j, d.Off)
 		in := c.And(v.iLe(d.Off, j), v.iLt(rel, d.Len))
-		if !v.eng.MathInts {
+		if !v.eng.IntIdx() {
 			in = c.BVUlt(rel, d.Len)
 		}
 		st.assume(c.Forall([]*Term{j}, c.Eq(c.Select(nr, j), c.Ite(in, ls[r], c.Select(old[r], j)))))
